@@ -14,8 +14,9 @@ import (
 // C17: the real transport wrappers over an in-memory net.Conn.
 
 type memConn struct {
-	delta  []byte   // bytes written since last take()
-	chunks [][]byte // what the peer sent
+	delta       []byte   // bytes written since last take()
+	chunks      [][]byte // what the peer sent
+	eofWithLast bool     // the last fragment is returned together with io.EOF (allowed by io.Reader)
 }
 
 func (c *memConn) take() []byte { d := c.delta; c.delta = nil; return d }
@@ -32,6 +33,10 @@ func (c *memConn) Read(p []byte) (int, error) {
 	}
 	n := copy(p, c.chunks[0])
 	c.chunks[0] = c.chunks[0][n:]
+	if c.eofWithLast && len(c.chunks) == 1 && len(c.chunks[0]) == 0 {
+		c.chunks = nil
+		return n, io.EOF
+	}
 	return n, nil
 }
 func (c *memConn) Close() error                     { return nil }
@@ -93,6 +98,9 @@ func runC17(seed int64, count int) {
 				emit("C17 write %s %s", hexOrDash(p), hexOrDash(conn.take()))
 			case r < 8:
 				k := rng.Intn(4)
+				if rng.Intn(3) == 0 {
+					k = 4 + rng.Intn(4) // longer batches (a sender draining a backlog)
+				}
 				var bufs transport.Buffers
 				var hs []string
 				for i := 0; i < k; i++ {
@@ -120,6 +128,7 @@ func runC17(seed int64, count int) {
 		for _, c := range chunks {
 			conn.chunks = append(conn.chunks, append([]byte(nil), c...))
 		}
+		conn.eofWithLast = rng.Intn(3) == 0
 		emit("C17 feed %s", chunksHex(chunks))
 		got := 0
 		for it := 0; it < 400 && got < total; it++ {
